@@ -69,7 +69,9 @@ impl St<'_> {
         if !self.fails.iter().any(|f| f.oracle == oracle) {
             self.fails.push(Failure { oracle: oracle.to_string(), msg });
         }
-        self.stop = true;
+        if bsv_core::runner::stops_case(coll_owns(bsv_core::runner::current_prop(), oracle)) {
+            self.stop = true;
+        }
     }
     fn note(&mut self, s: impl FnOnce() -> String) {
         if self.log.is_some() && std::env::var_os("VERIF_TRACE").is_some() {
@@ -1836,15 +1838,19 @@ fn run_mut<'a, T: Elem + Clone + PartialEq>(st: &mut St, h: &Hdr, arena: &mut (d
     }
 }
 
+/// collection buffers are blocks in the sense of C01 / C02: overlapping buffers of live parts violate C01,
+/// a sibling whose contents change through an operation on another part violates C02
+pub fn coll_owns(prop: &str, oracle: &str) -> bool {
+    oracle.starts_with(prop)
+        || oracle.starts_with("panic")
+        || oracle.starts_with("crash")
+        || (prop == "C01" && oracle == "C16/parts-disjoint")
+        || (prop == "C02" && oracle == "C16/sibling-changed")
+}
+
 impl Engine for CollEngine {
     fn owns(&self, prop: &str, oracle: &str) -> bool {
-        // collection buffers are blocks in the sense of C01 / C02: overlapping buffers of live parts violate C01,
-        // a sibling whose contents change through an operation on another part violates C02
-        oracle.starts_with(prop)
-            || oracle.starts_with("panic")
-            || oracle.starts_with("crash")
-            || (prop == "C01" && oracle == "C16/parts-disjoint")
-            || (prop == "C02" && oracle == "C16/sibling-changed")
+        coll_owns(prop, oracle)
     }
     fn name(&self) -> &'static str {
         "B/collections"
